@@ -20,7 +20,7 @@ Log entries (appended in real execution order; list index = ghost time):
   ('enter', hid, eid)  ('exit', hid, eid, how)  handler activity; generator steps log ('step', hid, eid, n)
   ('val', hid, eid, v)                          handler produced result v (return / yield of non-None / error)
   ('resumed', hid, eid, callee_eid, value, errors)
-  ('obs', name, eid or parent eid, extra)        observer saw a dispatched event
+  ('obs', name, eid or parent eid, extra, argsig) observer saw a dispatched event; argsig summarises its arguments
 """
 from circuits.core.components import BaseComponent
 from circuits.core.events import Event
@@ -60,12 +60,20 @@ class Observer(BaseComponent):
         eid = getattr(event, 'eid', None)
         par = getattr(event.parent, 'eid', None) if getattr(event, 'parent', None) is not None else None
         extra = None
+        argsig = None
         if name == 'exception':
             fe = kwargs.get('fevent')
             extra = getattr(fe, 'eid', None)
-            if args and args[0] in (SystemExit, KeyboardInterrupt):
-                pass
-        w.log.append(('obs', name, eid if eid is not None else par, extra))
+            # (exception type, its arguments, name of the handler function named by handler=, list-of-strings traceback?)
+            argsig = (getattr(args[0], '__name__', None) if args else None,
+                      repr(getattr(args[1], 'args', None)) if len(args) > 1 else None,
+                      getattr(kwargs.get('handler'), '__name__', None),
+                      isinstance(args[2], list) if len(args) > 2 else None)
+        elif par is not None and eid is None and args:
+            # feedback events (<name>_success / _failure / _complete / _done ...): does the first argument name the original
+            # event, and what is the second one
+            argsig = (args[0] is event.parent, repr(snapv(args[1])) if len(args) > 1 else None)
+        w.log.append(('obs', name, eid if eid is not None else par, extra, argsig))
 
 
 class OrderedTasks(set):
